@@ -20,7 +20,7 @@ from ..seams import neqsolver as NSV
 
 PROPERTY = "C08"
 LEVEL = "fault_enumeration"
-QUICK_RUNS = 160
+QUICK_RUNS = 240
 THOROUGH_BUDGET_S = 1500
 THOROUGH_BATCH = 480
 CROSS_RUNS_QUICK = 16
@@ -67,6 +67,27 @@ def gen_system(r, live):
         init[solid] = r.choice([0.0, 0.0, _logu(r, -6, -1), _logu(r, -3, 0)])
         spec = {"kind": "precip:" + regime + (":solid" if init[solid] > 0 else ":nosolid"), "species": names,
                 "eqs": [{"name": salt, "reac": dict(reac), "prod": dict(prod), "K": K}]}
+        coupled = {"caf2": ["hf"], "agcl": ["ag1", "ag2"]}.get(salt)
+        if coupled and r.random() < 0.6:
+            # one solid coupled to a homogeneous equilibrium that binds or frees one of its ions
+            for e in coupled[: r.randint(1, len(coupled))]:
+                rr, pp, lk2 = EQ.EQUILIBRIA[e]
+                spec["eqs"].append({"name": e, "reac": dict(rr), "prod": dict(pp), "K": 10 ** (lk2 + r.uniform(-1, 1))})
+                for n in list(rr) + list(pp):
+                    if n not in names:
+                        names.append(n)
+                        init[n] = _logu(r, -4, 0)
+            if r.random() < 0.5:
+                # "hidden" supersaturation: the free ion starts (almost) absent and is released by the coupled equilibrium
+                shared = [n for n in ions if any(n in list(q["reac"]) + list(q["prod"]) for q in spec["eqs"][1:])]
+                if shared:
+                    init[shared[0]] = r.choice([0.0, _logu(r, -10, -7)])
+                    other = [n for n in ions if n != shared[0]]
+                    if other:
+                        init[other[0]] = _logu(r, -2, 0)
+            r.shuffle(names)
+            spec["species"] = names
+            spec["kind"] = "precip:coupled" + (":solid" if init[solid] > 0 else ":nosolid")
         return spec, init
     nchains = r.choice([1, 1, 2, 2, 3]) if live else r.choice([1, 1, 2, 2, 3, 4])
     chains = r.sample(EQ.CHAINS, nchains)
@@ -132,12 +153,21 @@ def gen_case(seed, run, tier):
         elif roll < 0.88:
             vk = rw.choice([n for n in spec["species"] if n != "H2O"])
             lo = math.log10(max(init[vk], 1e-7))
-            op = {"op": "solve", "varied": {vk: [10 ** (lo + d) for d in sorted(rw.uniform(-1, 1) for _ in range(3))]}}
+            op = {"op": "solve", "varied": {vk: [10 ** (lo + d) for d in sorted(rw.uniform(-1, 1) for _ in range(rw.choice([1, 2, 3])))]}}
         elif len(spec["eqs"]) == 1 and not precip:
             op = {"op": "brentq"}
         ops.append(op)
     if single:
         ops.insert(0, {"op": "brentq"})
+        if rw.random() < 0.5:
+            # a weak acid that has barely dissociated: small K, products dilute or absent
+            e0 = spec["eqs"][0]
+            for n in e0["prod"]:
+                init[n] = rw.choice([0.0, _logu(rw, -9, -7)])
+            for n in e0["reac"]:
+                if n != "H2O":
+                    init[n] = _logu(rw, -4, -1)
+            e0["K"] = min(e0["K"], 10 ** rw.uniform(-12, -8))
     kinds = [k for k in NSV.FAULT_KINDS if rs.random() < 0.8] or ["fail_nan"]
     enum = {"kinds": kinds, "early": sorted(rf.sample(range(1, 21), 3)), "max_inv": 6,
             "pairs": 0 if tier == "quick" else 4, "fseed": rf.randrange(1 << 30)}
@@ -319,12 +349,24 @@ def judge(ctx, op, rec, faults):
                      "finite": clause != "nonfinite",
                      "own_residual_large": (rec["own"][pi] is not None and rec["own"][pi] > 1e-6),
                      "in_bounds": _in_bounds(ctx.names, c0, x)}))
-    # S2: flag honesty (single-point root only: the last invocation serves the point)
-    if op["op"] == "root" and rec["points"] and rec["inv_log"]:
+    # S2: flag honesty.  root: the last invocation serves the point.  roots/solve on homogeneous systems: every point
+    # is served by exactly S consecutive invocations (S = stages of the chain), the last of which decides its flag.
+    npts = len(rec["points"])
+    if op["op"] == "root" and npts and rec["inv_log"]:
         last = rec["inv_log"][-1]
         if last.get("fired") and last.get("fault") in NSV.FAILURE_KINDS + ("early_stop",) and rec["points"][0][2]:
             out.append(core.violation("flag_dishonest", "last solver invocation failed (%s) but success was reported" % last["fault"],
                                       {"op": "root", "chain": chain, "fault": last["fault"]}))
+    elif op["op"] in ("roots", "solve") and npts and not ctx.spec["kind"].startswith("precip"):
+        stages = 2 if op["op"] == "solve" else len(CHAINS.get(chain, ("x",)))
+        if len(rec["inv_log"]) == stages * npts and op.get("base_n_inv") == stages * npts:
+            for j, inv in enumerate(rec["inv_log"]):
+                if j % stages == stages - 1 and inv.get("fired") and inv.get("fault") in NSV.FAILURE_KINDS + ("early_stop",):
+                    if rec["points"][j // stages][2]:
+                        out.append(core.violation(
+                            "flag_dishonest", "%s: the last solver invocation serving point %d failed (%s) but the point is reported as success" % (
+                                op["op"], j // stages, inv["fault"]), {"op": op["op"], "chain": chain, "fault": inv["fault"]}))
+                        break
     return out
 
 
@@ -501,8 +543,9 @@ def execute(case):
                 viols.append(core.violation("sticky_state", "fresh solver objects and a prepared one disagree: %s vs %s" % (
                     base["points"][0][1], first_reused["points"][0][1]), {"op": op["op"], "stage": "fresh_vs_prepared"}))
         if base["n_inv"] > 0:
+            fop = dict(op, base_n_inv=base["n_inv"])
             for plan in enumerate_faults(base, enum):
-                one(op, plan, reuse, "faulted")
+                one(fop, plan, reuse, "faulted")
             # S3: recovery within one call once faults stop, on the very same objects
             after = one(op, [], reuse, "recovery")
             ref = first_reused if reuse else base
